@@ -47,7 +47,7 @@ PROPS["C10"] = {
         "first order: for every k in [1, 2^31-1], EVERY i64 state, every x: no overflow in either profile, output and get() between previous output and input (lp1_between)",
         "first order: constant input reached exactly from every state (lp1_dc_reaches) and held (lp1_dc_fixed)",
         "set(x); get() = x (lp_set_get)",
-        "second order: one-step linear form under explicit no-overflow preconditions (lp2_step_linear)",
+        "second order: one-step linear form under explicit no-overflow preconditions (lp2_step_linear); the only resting state under a constant input has velocity 0 and get() = x exactly, i.e. DC gain exactly 1 at rest (lp2_fixed_point_iff)",
         "NEGATION: second order wraps/panics near full scale (lp2_fullscale_overflow_witness): known finding F-C10",
     ],
     "clauses_explored": [
@@ -59,6 +59,7 @@ PROPS["C10"] = {
     "rule": "lp1: arbitrary/set()/reachable states x lattice gains x full-scale alternations; lp2: k lattice x level pairs; each configuration distinct",
 }
 PROPS["C01"] = {
+    "modules": ["C01", "C01acc"],
     "families": ["cossin"],
     "n_quick": 300000, "n_thorough": 3000000,
     "clauses_proved": [
@@ -68,11 +69,10 @@ PROPS["C01"] = {
         "quarter turn: (-sin, cos) exactly; half turn; conjugation by bit complement (cossin_quarter_turn, cossin_half_turn, cossin_conj)",
         "quadrant mirror = XOR 0x3fffffff swaps the magnitudes of cos and sin exactly (cossin_quadrant_mirror, cossin_quadrant_mirror_abs, cossinMirror_is_xor)",
         "each output sums to exactly zero over all 2^32 phases (cossin_sum_zero), by pairing, not enumeration",
+        "ACCURACY against the real cosine and sine (Mathlib Real.cos/Real.sin/Real.pi): |c/A - cos(p*pi/2^31)| <= 9.1e-6 < 1e-5 and likewise for sin, for all 2^32 phases (cossin_accuracy, cossin_accuracy_sharp, cossin_accuracy_full_holds; tightness witness cossin_accuracy_tight: 9.02e-6 is attained) -- per-row certificates (table quantisation + curvature + slope mismatch + floors), degree-13 Taylor enclosures from Complex.exp_bound, pi to 20 digits",
     ],
-    "clauses_explored": [
-        "accuracy |out/A - (cos,sin)(p*pi/2^31)| < 1e-5 against f64 cos/sin: all 2^32 phases in the thorough tier, 2^24 stratified in quick (max observed 9.0232e-6)",
-    ],
-    "level_text": "All exact clauses (range, symmetries, zero sum, no overflow) are theorems for all 2^32 phases. The accuracy clause compares with the real cos/sin and is explored natively (exhaustively over the finite domain in the thorough tier); it is not a theorem.",
+    "clauses_explored": [],
+    "level_text": "Every clause of the property, including the accuracy against the real cos/sin, is a kernel-checked theorem for all 2^32 phases. The native oracle (all 2^32 phases in the thorough tier, f64) is kept as an independent cross-check of the implementation.",
     "level_note": "Model: cossin, cossinCore, cossinTable (IdspModel/Model/Cossin*.lean); the 128-entry table is compared with the table build.rs generated for the current build on every run (op cossin_tab). Reading of 'mirroring swaps cos and sin': magnitudes swap, signs follow the quadrant (the literal (s, c) is false in odd quadrants: cossin_quadrant_mirror_literal_false).",
     "rule": "quick: one phase per 256-block (2^24), closed under the half turn; thorough: all 2^32 phases; each phase checked for accuracy, range, three symmetries",
 }
@@ -139,7 +139,7 @@ PROPS["C05"] = {
     "rule": "i8 macc: the complete (u, s) plane x limit pairs x e1 lattice (complete e1 range in thorough); i8 mul/div all pairs; wider types lattice + random",
 }
 PROPS["C03"] = {
-    "families": ["biquad", "num"],
+    "families": ["biquad", "num", "fbiquad"],
     "n_quick": 150000, "n_thorough": 1500000,
     "clauses_proved": [
         "N = 4, 5: y0 = clamp(floor(T/ONE)), state = [x0, x1, y0, y1(, T mod ONE)] when every partial sum fits (update4_exact, update5_exact); release: only the total must fit (update45_release_exact); checked: whenever it returns it is exact (update45_checked_exact_of_ok); remainder stays in [0, ONE) (update5_remainder_range, run5_remainder_range)",
@@ -152,11 +152,11 @@ PROPS["C03"] = {
         "f32/f64: the same expression to floating-point rounding; DF2T reproduces DF1 from rest for stable filters (native, tolerance scaled by filter gain)",
     ],
     "level_text": "Fixed-point clauses are theorems for all four widths; the DF2T clause is a theorem about the exact-arithmetic recurrence over any commutative ring; IEEE rounding is outside the theorems and explored natively.",
-    "level_note": "Model: biquadUpdate4/5/2, biquadAcc (IdspModel/Model/Biquad.lean). The fixed-point DF2T (documented as 'do not use') is tied by correspondence only. Floats are not modelled bit-exactly.",
+    "level_note": "Model: biquadUpdate4/5/2, biquadAcc (IdspModel/Model/Biquad.lean); f32/f64: fbiquadUpdate4/5/2 (IdspModel/Model/BiquadF.lean) over an abstract carrier, tied bit-exactly with Lean Float32/Float (op family fbiquad). The fixed-point DF2T (documented as 'do not use') is tied by correspondence only.",
     "rule": "all widths, N in {4,5,2}, coefficient styles (arbitrary, integrator, double integrator, identity), fed-back histories, accumulator-overflow cases",
 }
 PROPS["C04"] = {
-    "families": ["biquad"],
+    "families": ["biquad", "fbiquad"],
     "n_quick": 150000, "n_thorough": 1500000,
     "clauses_proved": [
         "min <= y <= max for N = 4, 5, 2, every state/input/coefficients, every step of every run (update4_in_limits, update5_in_limits, update2_in_limits, update45_in_limits_checked, run_in_limits)",
@@ -173,6 +173,7 @@ PROPS["C04"] = {
 }
 
 PROPS["C02"] = {
+    "modules": ["C02", "C02acc"],
     "families": ["atan2"],
     "n_quick": 200000, "n_thorough": 2000000,
     "clauses_proved": [
@@ -182,11 +183,10 @@ PROPS["C02"] = {
         "quadrant: r < 0 <-> y < 0 and -2^30 <= r < 2^30 <-> 0 <= x (atan2_sign, atan2_half_plane, atan2_quadrant, atan2_axes)",
         "reflections about x axis / y axis / diagonal are exact complements off the mirror line (atan2_reflect_x_axis, atan2_reflect_y_axis, atan2_reflect_diagonal)",
         "NEGATION on the mirror line: atan2(0, x) = 5215 for x >= 2, atan2(2,2) = 2^29+2599 (atan2_axis_offset, atan2_reflect_*_full_false): known finding F-C02-b",
+        "ACCURACY against the real angle (Mathlib Complex.arg, Real.arctan, Real.pi): |r*pi/2^31 - arg(x + y i)| <= max(1.5e-5, 1/max(|x|,|y|)) for ALL i32 pairs != (0,0), both profiles, without crossing the +-pi cut (atan2_accuracy, atan2_accuracy_full_holds, atan2_accuracy_release; atani_accuracy: polynomial within 2.3e-6 rad of arctan on all 65537 quotients by a chained kernel-evaluated enclosure; divi_angle_accuracy; atan2_first_octant_accuracy)",
     ],
-    "clauses_explored": [
-        "accuracy max(1.5e-5, 1/max(|x|,|y|)) rad against f64 atan2 (complete small square, lattice/near-axis/near-diagonal/power-of-two/random pairs; thorough adds the complete first-octant triangle to 2^14)",
-    ],
-    "level_text": "All exact clauses (totality, quadrant, reflections off the mirror line, no overflow) are theorems for all 2^64 pairs, with the polynomial's range discharged by a complete kernel-evaluated table over the 65537 possible quotients. Accuracy against the real arctangent is explored natively. The mirror-line reflection clause is false for the code (proved negation, known finding).",
+    "clauses_explored": [],
+    "level_text": "Every clause, including the accuracy against the real angle for all 2^64 pairs, is a kernel-checked theorem (complete kernel tables over the 65537 possible quotients for the polynomial's range and for its distance to arctan). The mirror-line reflection clause is false for the code (proved negation, known finding). The native oracle is kept as an independent cross-check of the implementation.",
     "level_note": "Model: divi, atani, atan2 (IdspModel/Model/Atan2.lean); the six polynomial coefficients are part of the model and tied by the atani correspondence.",
     "rule": "pairs: complete square |x|,|y| <= 2^8 (2^11 thorough), magnitude classes, near diagonal/axis, powers of two +0..3, MIN/MAX; each pair checked for accuracy, quadrant, three reflections",
 }
@@ -308,11 +308,10 @@ PROPS["C19"] = {
         "log2 = -2 and 2^31(1 - 5e-5) <= abs_sqr < 2^31 for EVERY phase (polar_log2, polar_abs_sqr; 128-row kernel table + exact norm identity)",
         "the unit vector is never on an axis or diagonal, so C02's reflection theorems apply (polar_off_mirror_lines)",
         "round-trip error is reproduced exactly under quarter turn / half turn, negated under conjugation and quadrant mirror, constant over 128-phase blocks; hence the bound for all 2^32 phases follows from 2^22 first-octant fields (polar_roundtrip_quarter_turn, _half_turn, _conj, _mirror, _low7, polar_roundtrip_reduction, polar_roundtrip_full_of_fields)",
+        "ROUND TRIP: |wrapI 32 (arg(from_angle p) - p)| <= 15038 LSB for all 2^32 phases (polar_roundtrip, polar_roundtrip_full_holds): complete kernel evaluation of the 2^22 first-octant fields (32 generated chunk files, decide +kernel, about 38 CPU-minutes cold) lifted by the symmetry reduction",
     ],
-    "clauses_explored": [
-        "the constant 15038 LSB: all 2^32 phases natively in the thorough tier, 2^24 stratified in quick (max observed 12690)",
-    ],
-    "level_text": "Magnitude clauses are theorems for all phases; the round-trip bound is reduced by theorems to a 2^22-point statement, which is explored natively (it depends on the accuracy of both approximations against real trigonometry).",
+    "clauses_explored": [],
+    "level_text": "Every clause is a kernel-checked theorem for all 2^32 phases: magnitude clauses by a 128-row table and an exact norm identity, the round-trip bound by complete kernel evaluation of the 2^22 first-octant fields lifted through the proved symmetries. The native oracle (all 2^32 phases in the thorough tier) is kept as an independent cross-check of the implementation.",
     "level_note": "Model: fromAngle, carg, absSqr, clog2 (IdspModel/Model/Complex.lean) on top of the C01/C02 models.",
     "rule": "quick: one phase per 256-block; thorough: all 2^32 phases",
 }
